@@ -5,6 +5,8 @@
 #include <unicode/unistr.h>
 #include <unicode/uchar.h>
 #include <unicode/normalizer2.h>
+#include <unicode/uscript.h>
+#include <algorithm>
 #include <cstring>
 using namespace pv;
 using U_ICU_NAMESPACE::UnicodeString;
@@ -107,5 +109,33 @@ static Reg r_sp("icu.spaces", [](const std::vector<std::string> &a) -> std::stri
   std::string t, o;
   while (std::getline(is, t, ',')) { UChar32 c = strtoul(t.c_str(), NULL, 10); if (u_isspace(c)) { if (!o.empty()) o += ","; o += t; } }
   return "ok " + (o.empty() ? std::string("-") : o);
+});
+// icu.classify <cp csv> -> cp:script:punct:space,...   (uscript_getScript / u_ispunct / u_isspace; script x = failure/invalid)
+static Reg r_cls("icu.classify", [](const std::vector<std::string> &a) -> std::string {
+  if (a.size() != 1) return "bad-op";
+  if (a[0] == "-") return "ok -";
+  std::istringstream is(a[0]);
+  std::string t, o;
+  while (std::getline(is, t, ',')) {
+    UChar32 c = (UChar32)strtoul(t.c_str(), NULL, 10);
+    UErrorCode err = U_ZERO_ERROR;
+    UScriptCode sc = uscript_getScript(c, &err);
+    if (!o.empty()) o += ",";
+    o += t + ":" + ((U_FAILURE(err) || sc == USCRIPT_INVALID_CODE) ? std::string("x") : std::to_string((int)sc)) + ":" + (u_ispunct(c) ? "1" : "0") + ":" + (u_isspace(c) ? "1" : "0");
+  }
+  return "ok " + o;
+});
+// icu.scriptcodes <name> -> sorted unique UScriptCode values (as simple_cleaning's --scripts resolves them)
+static Reg r_sc("icu.scriptcodes", [](const std::vector<std::string> &a) -> std::string {
+  if (a.size() != 1) return "bad-op";
+  UScriptCode buf[32];
+  UErrorCode err = U_ZERO_ERROR;
+  int32_t n = uscript_getCode(a[0].c_str(), buf, 32, &err);
+  if (U_FAILURE(err) || n <= 0) return "ERR:script";
+  std::sort(buf, buf + n);
+  n = (int32_t)(std::unique(buf, buf + n) - buf);
+  std::string o;
+  for (int32_t i = 0; i < n; ++i) { if (i) o += ","; o += std::to_string((int)buf[i]); }
+  return "ok " + o;
 });
 int main() { return pv::main_loop(); }
